@@ -432,6 +432,11 @@ class PKONEHardwarePlatform(SwitchPlatform, DriverPlatform, LightsPlatform, Serv
 
         # the message payload is delimited with an 'X' character for the switches on each board
         # The first character is the board address ID
+        if not msg or not (msg[0].isascii() and msg[0].isdecimal()) or msg[1:].strip('01'):
+            # line noise: a damaged report must not update some of the switches and then raise
+            self.log.warning("Received malformed all switch states message (PSA), skipping: %s", msg)
+            return
+
         board_address_id = int(msg[0])
         switch_states = msg[1:]
 
@@ -446,6 +451,11 @@ class PKONEHardwarePlatform(SwitchPlatform, DriverPlatform, LightsPlatform, Serv
         # The PSW message contains the following information:
         # [PSW opcode] + [board address id] + switch number + switch state (0 or 1) + E
         self.debug_log("Received switch state change (PSW): %s", msg)
+        if len(msg) != 4 or not (msg.isascii() and msg[0:3].isdecimal()) or msg[3] not in '01':
+            # line noise: a truncated or damaged report must not be read as a report for another switch or state
+            self.log.warning("Received malformed switch state change message (PSW), skipping: %s", msg)
+            return
+
         switch_number = PKONESwitchNumber(int(msg[0]), int(msg[1:3]))
         switch_state = int(msg[-1])
         self.machine.switch_controller.process_switch_by_num(state=switch_state,
